@@ -255,10 +255,12 @@ impl Prop for C03 {
                     }
                     if waiting_input {
                         waiting_input = false;
-                        let r = match rng.usize(6) {
+                        let r = match rng.usize(9) {
                             0 => "1,2,3".to_string(),
                             1 => "\"a,b\",\"".to_string(),
                             2 => String::new(),
+                            6 => rng.pick(&["\"", "\"\"", "\"\"\"", " \" ", "a,\"", "\",b", "1,\",3", "\"é", "é\"", ",", ",,", " , , "]).to_string(),
+                            7 => format!("{},{},{}", rng.pick(&["\"", "1", "x", ""]), rng.pick(&["\"", "\"\"", "2", " "]), rng.pick(&["\"", "3", "\"z\"", "&HD"])),
                             3 => soup(rng),
                             4 => long_line(rng),
                             _ => "1,x,1E99".to_string(),
@@ -372,6 +374,55 @@ fn finish_session(s: &mut Session, script: &mut Vec<String>, ctx: &mut Ctx) {
     }
 }
 
+impl C03 {
+    /// A program around the size of the 64K code / DATA pool (a little below, at, beyond), then ordinary
+    /// commands: everything must stay a BASIC error and the prompt must keep working.
+    fn oversized_case(&self, rng: &mut Rng, ctx: &mut Ctx) {
+        let data = rng.coin();
+        let per_line = 480usize; // cells per ~1000-byte line
+        let nlines = (65_535 / per_line) as i64 + rng.range(-3, 4);
+        let mut s = Session::new();
+        let mut script: Vec<String> = vec![];
+        for _ in 0..4 {
+            guard!(script, "execute 5000".to_string(), s.step_q(5000));
+        }
+        for i in 0..nlines.max(1) {
+            let mut l = format!("{} {}", i + 1, if data { "DATA " } else { "A=" });
+            let mut first = true;
+            let width = 900 + rng.usize(100);
+            while l.len() < width {
+                if !first {
+                    l.push_str(if data { "," } else { "+" });
+                }
+                first = false;
+                l.push('1');
+            }
+            // the journal would be huge: name the shape instead of every line
+            script.push(format!("enter <line {} of {} like {:?}..., {} bytes>", i + 1, nlines, &l[..24], l.len()));
+            basic::mach::verif::set_fuel(FUEL);
+            s.enter(&l);
+            mon::unlimited_fuel();
+            for _ in 0..4 {
+                if s.step_q(5000) == Some(Stop::Stopped) {
+                    break;
+                }
+            }
+        }
+        mon::journal(&script.join("\n"));
+        for _ in 0..rng.range(2, 6) {
+            let c = *rng.pick(&["PRINT 1", "RUN", "LIST 1-1", "NEW", "DELETE 2-", "CLEAR", "SAVE \"F\"", "RENUM", "A=1:PRINT A", "GOTO 1", "1", "2 PRINT 2", "READ A:PRINT A", "CONT"]);
+            guard!(script, format!("enter {:?}", c), s.enter(c));
+            for _ in 0..400 {
+                if guard!(script, "execute 5000".to_string(), s.step_q(5000)) == Some(Stop::Stopped) {
+                    break;
+                }
+            }
+        }
+        ctx.count("oversized_program_sessions");
+        finish_session(&mut s, &mut script, ctx);
+    }
+}
+
 /// Statements tried with the value stack a few cells below its limit.
 const EDGE_STATEMENTS: [&str; 24] = [
     "INPUT A,B,C,D,E",
@@ -404,6 +455,9 @@ impl C03 {
     /// The value stack is filled to within a few cells of its 64K limit with abandoned FOR loops and
     /// GOSUBs, then one ordinary statement runs there; whatever happens must be a BASIC error.
     fn edge_case(&self, rng: &mut Rng, ctx: &mut Ctx) {
+        if rng.chance(1, 12) {
+            return self.oversized_case(rng, ctx);
+        }
         let n = 16_370 + rng.range(0, 14);
         let gosubs = rng.range(0, 3);
         let stmt = *rng.pick(&EDGE_STATEMENTS[..]);
@@ -431,7 +485,7 @@ impl C03 {
             }
         }
         guard!(script, "enter \"RUN\"".to_string(), s.enter("RUN"));
-        let replies = ["1,2,3,4,5", "x", "\"a", "7", ""];
+        let replies = ["1,2,3,4,5", "x", "\"a", "7", "", "\"", "1,\",3,4,\""];
         let mut max_stack = 0usize;
         for round in 0..400 {
             let st = guard!(script, "execute 5000".to_string(), s.step_q(5000));
@@ -452,7 +506,7 @@ impl C03 {
                             guard!(script, "enter \"CONT\"".to_string(), s.enter("CONT"));
                         }
                     } else {
-                        let r = replies[(round + rng.usize(5)) % 5];
+                        let r = replies[(round + rng.usize(7)) % 7];
                         guard!(script, format!("enter {:?}", r), s.enter(r));
                     }
                 }
